@@ -117,23 +117,34 @@ theorem joinSlash_inj (ps qs : List Str) (hp : WFParts ps) (hq : WFParts qs)
 
 /-! ### fnmatch on meta-free patterns is equality -/
 
+theorem fnm_cons_plain (p : Char) (ps : Str) (c : Char) (cs : Str)
+    (hs : p ≠ '*') (hb : p ≠ '[') (he : p ≠ '\\') :
+    fnm (p :: ps) (c :: cs) = ((p == '?' || p == c) && fnm ps cs) := by
+  rw [fnm.eq_def]
+  split <;> simp_all
+
+theorem fnm_cons_nil (p : Char) (ps : Str) (hs : p ≠ '*') : fnm (p :: ps) [] = false := by
+  rw [fnm.eq_def]
+  split <;> simp_all
+
 theorem fnm_literal (pat : Str) (h : hasMeta pat = false) : ∀ s, fnm pat s = true ↔ s = pat := by
   induction pat with
   | nil => intro s; cases s <;> simp [fnm]
   | cons p ps ih =>
     intro s
     simp only [hasMeta, List.any_cons, Bool.or_eq_false_iff] at h
-    obtain ⟨⟨h1, h2⟩, h3⟩ := h
+    obtain ⟨⟨⟨⟨h1, h2⟩, h4⟩, h5⟩, h3⟩ := h
     have hs : p ≠ '*' := by simpa using h1
     have hq : p ≠ '?' := by simpa using h2
+    have hb : p ≠ '[' := by simpa using h4
+    have he : p ≠ '\\' := by simpa using h5
     cases s with
     | nil =>
-      rw [fnm.eq_def]
+      rw [fnm_cons_nil p ps hs]
       simp
     | cons c cs =>
-      rw [fnm.eq_def]
-      simp only
       have := ih (by simpa [hasMeta] using h3) cs
+      rw [fnm_cons_plain p ps c cs hs hb he]
       simp only [Bool.and_eq_true, Bool.or_eq_true, beq_iff_eq, this, List.cons.injEq]
       constructor
       · rintro ⟨h | h, rfl⟩
@@ -146,7 +157,8 @@ theorem fnmatch_literal (pat : Str) (h : hasMeta pat = false) (s : Str) :
   unfold fnmatch
   split
   · exact fnm_literal _ h _
-  · rename_i c cs hno
+  · exact fnm_literal _ h _
+  · rename_i c cs hno _
     constructor
     · intro e; simp at e
     · intro e
